@@ -12,6 +12,7 @@
 -/
 import QlibcModel.Seq.Fifo
 import QlibcModel.Seq.InvLemmas
+import QlibcModel.Shapes.Seq
 namespace Qlibc.Props.C09
 open Qlibc Qlibc.Seq Qlibc.Seq.Spec
 
